@@ -145,6 +145,13 @@ def hex_blocks(rng: random.Random, w: int, sizes: List[int], ntrees: int, full: 
         # the stack
         add("push", f"hex.push_{nm} {{v0}}", [D(), "sp", "stack"], m=m)
         add("pop", f"hex.pop_{nm} {{v0}}", [D(), "sp", "stack"], m=m)
+    # byte-buffer helpers of hex/strings.fj (pointer + count / length in a hex[:w/4] variable)
+    add("buf_input_line", "hex.input_ptr_line {v0}, {v1}", [P(), "i1", "buf"], n=nq)
+    add("buf_print_text", "hex.print_ptr_text {v0}, {v1}", [P(), "i1", "buf"], n=nq)
+    add("buf_print_line", "hex.print_ptr_line {v0}, {v1}", [P(), "i1", "buf"], n=nq)
+    add("buf_fill", "hex.fill_bytes {v0}, {v1}, {v2}", [P(), "i1", D(), "buf"], n=nq)
+    a, b = two()
+    add("buf_copy", "hex.copy_bytes {v0}, {v1}, {v2}", [a, b, "i1", "buf"], n=nq)
     add("ptr_zero", "hex.zero_ptr {v0}", [P(), "buf"])
     add("ptr_flip_data", "hex.ptr_flip_dbit {v0}", [P(), "buf"], c=1)
     add("ptr_flip_data", "hex.ptr_flip {v0}", [P(), "bufF"], c=1)
@@ -268,7 +275,7 @@ def signed(v: int, w: int) -> int:
     return v - (1 << w) if v >> (w - 1) else v
 
 
-def precond(arena: Arena, blk: Block, pre: Dict[str, int]) -> bool:
+def precond(arena: Arena, blk: Block, pre: Dict[str, int], post: Dict[str, int]) -> bool:
     """do the cells the macro is documented to touch lie inside the observed buffer?  (values: the state TLC printed)"""
     w = arena.w
     k = blk.key
@@ -280,6 +287,15 @@ def precond(arena: Arena, blk: Block, pre: Dict[str, int]) -> bool:
         return False
     if k in ("ptr_add", "ptr_mov", "ptr_index"):
         return all(abs(pre[v]) < 1 << 20 for v in blk.v if v in arena.var_ptr)
+    if k in ("buf_input_line", "buf_print_line"):        # the bytes stored / printed (the length TLC prescribes) lie inside the buffer
+        p = pre[blk.v[0]]
+        return 0 <= p and p + post[blk.v[1]] + (1 if k == "buf_print_line" else 0) <= size
+    if k in ("buf_print_text", "buf_fill"):
+        p = pre[blk.v[0]]
+        return 0 <= p and 0 <= pre[blk.v[1]] and p + pre[blk.v[1]] <= size
+    if k == "buf_copy":
+        d_, s_, c_ = pre[blk.v[0]], pre[blk.v[1]], pre[blk.v[2]]
+        return 0 <= d_ and 0 <= s_ and 0 <= c_ and d_ + c_ <= size and s_ + c_ <= size and (d_ + c_ <= s_ or s_ + c_ <= d_)
     if k in ("ptr_rd", "ptr_xor_from"):
         p = pre[blk.v[1]]
         return 0 <= p and p + max(1, blk.n) <= size
@@ -354,6 +370,24 @@ def gen_sets(rng: random.Random, arena: Arena, blk: Block, first: bool, with_hex
             st[v] = rng.randrange(1 << arena.var_nd.get(v, 4))
         else:
             st[v] = rng.randrange(1 << (4 * NDH)) if rng.random() < 0.8 else rng.choice([0, (1 << (4 * NDH)) - 1])
+    if blk.key.startswith("buf_") and (first or rng.random() < 0.8):
+        pv = blk.v[0]
+        pval = rng.randrange(NB)
+        st[pv] = pval
+        if blk.key == "buf_copy":
+            c_ = rng.randrange(0, NB // 2 + 1)
+            lo_, hi_ = sorted(rng.sample(range(0, NB - 2 * c_ + 2), 2)) if NB - 2 * c_ + 2 >= 2 else (0, 0)
+            a_, b_ = lo_, max(hi_, lo_ + c_)
+            if rng.random() < 0.5:
+                a_, b_ = b_, a_
+            st[blk.v[0]], st[blk.v[1]], st["i1"] = a_, b_, c_
+        else:
+            st["i1"] = rng.choice([0, 1, NB - pval, rng.randrange(NB - pval + 1), rng.randrange(NB - pval + 1)])
+        if blk.key == "buf_print_line" and "buf" not in st or blk.key == "buf_print_line":
+            # a terminator somewhere in the buffer
+            cells = bytearray(st.get("buf", 0).to_bytes(NB, "little")) if st.get("buf", 0) < 1 << (8 * NB) else bytearray(NB)
+            cells[rng.randrange(pval, NB)] = rng.choice([0, 10])
+            st["buf"] = int.from_bytes(bytes(cells), "little")
     # make indexed accesses land inside the buffer most of the time
     if blk.key in ("ptr_rd_nth", "ptr_wr_nth") and (first or rng.random() < 0.7):
         pv = blk.v[1] if blk.key == "ptr_rd_nth" else blk.v[0]
@@ -383,7 +417,13 @@ def run_arena(chk: Check, fjm_run, w: int, blocks: List[Block], with_hex: bool, 
             beh = []
             for k in range(1 if i < len(blocks) else rng.randrange(2, maxlen + 1)):
                 bi = i % len(blocks) if k == 0 else rng.randrange(len(blocks))
-                beh.append({"block": bi, "set": gen_sets(rng, arena, blocks[bi], k == 0, with_hex)})
+                step = {"block": bi, "set": gen_sets(rng, arena, blocks[bi], k == 0, with_hex)}
+                if blocks[bi].key == "buf_input_line":
+                    room = max(0, NB - max(0, step["set"].get(blocks[bi].v[0], 0)))
+                    line = bytes(rng.choice([rng.randrange(1, 256), 65 + rng.randrange(26)]) for _ in range(rng.randrange(0, room + 1))).replace(b"\n", b"x")
+                    data = line + rng.choice([b"\n", b"\n", b"\x00", b""]) + bytes(rng.randrange(256) for _ in range(rng.randrange(3)))
+                    step["inp"] = [(b_ >> i_) & 1 for b_ in data for i_ in range(8)]
+                beh.append(step)
             behs.append(beh)
         expected = oracle(chk, 16, arena.vars, blocks, behs, f"StlSem[ptr {tag} w={w}]", batch=50)
         # preconditions, on TLC's states: cut every behaviour before the first step that leaves the observed buffers
@@ -396,15 +436,21 @@ def run_arena(chk: Check, fjm_run, w: int, blocks: List[Block], with_hex: bool, 
             upto = 0
             for k, st in enumerate(beh):
                 cur.update(st["set"])
-                if not precond(arena, blocks[st["block"]], cur):
+                post = {v: ival(x) for v, x in exp[k]["vals"].items()}
+                if not precond(arena, blocks[st["block"]], cur, post):
                     break
                 upto = k + 1
-                cur = {v: ival(x) for v, x in exp[k]["vals"].items()}
+                cur = post
             if upto < len(beh):
                 cut += 1
             if upto:
                 kept.append((beh[:upto], exp[:upto]))
         behs2 = [b for b, _ in kept]
+        per = chk.extra.setdefault("steps_judged_per_macro", {})
+        for b_ in behs2:
+            for st_ in b_:
+                nm = blocks[st_["block"]].name
+                per[nm] = per.get(nm, 0) + 1
         exp2 = {i: e for i, (_, e) in enumerate(kept)}
         results, broken = run_behaviours(arena, behs2)
         n = compare(chk, arena, behs2, results, broken, exp2, blocks, f"ptr {tag} w={w} {engine}")
